@@ -382,7 +382,13 @@ func runCase(cs poolsim.Case, coqWanted bool) (coqOut string, failOut *failure, 
 				st["submit-skipped"]++
 			}
 		case "fill":
-			for _, s := range r.Fill(g, stp.Flavor == "v2", 10, stp.N, 1_000_000) {
+			chains, size := 10, 1_000_000
+			fl := stp.Flavor
+			if i := strings.IndexByte(fl, ':'); i >= 0 {
+				fmt.Sscanf(fl[i+1:], "%d:%d", &chains, &size)
+				fl = fl[:i]
+			}
+			for _, s := range r.Fill(g, fl == "v2", chains, stp.N, size) {
 				added += submit(i, s)
 			}
 			st["fills"]++
@@ -439,6 +445,16 @@ func corpus(seed uint64) []poolsim.Case {
 	c = lin(1, 4)
 	c.Seed += 103
 	c.Plan = []poolsim.Step{all(4), {Kind: "submit", Flavor: "filler-v1", Seed: 26 + seed}, {Kind: "submit", Flavor: "heavy-chain-v2", Seed: 27 + seed}, {Kind: "mine"}, {Kind: "mine"}}
+	out = append(out, c)
+	// a well filled pool that is not full (8 chains x 5 x ~450 kB = 18e6 of 20e6), then a refused set
+	// whose new members are heavy: nothing may leave the pool
+	c = lin(2, 3)
+	c.Seed += 104
+	c.Plan = []poolsim.Step{all(3), {Kind: "fill", Flavor: "v2:8:450000", N: 5, Seed: 31 + seed}, {Kind: "submit", Flavor: "heavy-set-conflict-v2", Seed: 32 + seed}, {Kind: "submit", Flavor: "fresh-v2", Seed: 33}}
+	out = append(out, c)
+	c = lin(0, 3)
+	c.Seed += 105
+	c.Plan = []poolsim.Step{all(3), {Kind: "fill", Flavor: "v1:8:450000", N: 5, Seed: 34 + seed}, {Kind: "submit", Flavor: "heavy-set-conflict-v1", Seed: 35 + seed}, {Kind: "submit", Flavor: "fresh-v1", Seed: 36}}
 	out = append(out, c)
 	// a full pool: eviction by fee rate
 	c = lin(2, 3)
@@ -514,7 +530,7 @@ func run(c *hx.Ctx) {
 	for _, cs := range corpus(c.Seed) {
 		doCase(cs)
 	}
-	n := c.Scale(205, 4000)
+	n := c.Scale(150, 4000)
 	for i := 0; i < n; i++ {
 		g := c.R.Fork()
 		cs := poolsim.Case{Seed: g.U64(), Regime: []int{1, 2, 0, 1, 2, 4}[i%6], Opts: chaingen.GenOpts{Blocks: 5 + g.Intn(10), Branchiness: 2 + g.Intn(4), TxPerBlock: g.Intn(3), Jitter: g.Intn(3)}}
